@@ -940,3 +940,31 @@ def rule_identities_offset_units(rep, fb, floor=4, name="UNIT.identities-offset"
     if n < 4:
         raise AnalysisError("only %d uses of offset_ in IdentitiesOf arithmetic found" % n)
     return r.done()
+
+
+# ------------------------------------------------------------------------------------------------
+# a local that replaces a member for the rest of a computation
+
+def rule_adjusted_twin(rep, fb, floor=2, name="TWIN.adjusted-local"):
+    r = rep.rule(name, "where a method copies a member into a local of the same stem (`int64_t size = size_;`) and then adjusts the local (`size += n - 1`), the local is the quantity the computation continues with: "
+                 "an `if` that compares a variable with the adjusted local does not recompute that variable from the unadjusted member in its body (`if (thisn*2 > size) thisn = size_ - thisn;`) - "
+                 "the two agree whenever the adjustment is zero, so only the adjusted case (combinations with replacement) goes wrong", floor=floor)
+    n = 0
+    for f in fb.lib_funcs(inst=False):
+        decls = find_all(f["body"], lambda k: k[0] == "decl" and k[3] is not None and k[3][0] == "member" and k[3][1] == ("this",) and isinstance(k[3][2], str)
+                         and k[3][2] != k[1] and k[3][2].rstrip("_") == k[1])
+        for d in decls:
+            L, M = d[1], d[3][2]
+            mods = find_all(f["body"], lambda k: (k[0] == "aug" and k[2] == ("var", L)) or (k[0] == "assign" and k[1] == ("var", L)))
+            if not mods:
+                continue
+            for j, st in enumerate(find_all(f["body"], lambda k: k[0] == "if" and find_all((k[1],), lambda q: q == ("var", L)))):
+                others = {q[1] for q in find_all((st[1],), lambda q: q[0] == "var" and q[1] != L)}
+                n += 1
+                bad = [a for a in find_all(st[2], lambda k: (k[0] == "assign" and k[1][0] == "var" and k[1][1] in others) or (k[0] == "aug" and k[2][0] == "var" and k[2][1] in others))
+                       if find_all((a[2] if a[0] == "assign" else a[3],), lambda q: q == ("member", ("this",), M))]
+                r.check(not bad, "%s#%s@if%d" % (f["qual"], L, j + 1), "%s:%d" % (f["file"], st[-1] if isinstance(st[-1], int) else f["line"]),
+                        "%s compares with the adjusted local `%s` and then recomputes the compared variable from the member `%s`" % (f["qual"], L, M), detail="adjusted local used")
+    if n < 2:
+        raise AnalysisError("only %d conditions on adjusted member copies found" % n)
+    return r.done()
